@@ -11,10 +11,11 @@ Fixpoint nodupb (l : list string) : bool :=
   match l with [] => true | x :: r => negb (existsb (String.eqb x) r) && nodupb r end.
 
 (* every covered wrapper: recognised body, the right kind of call and 'this', each C++ parameter passed once, in order,
-   from the C parameter of the same name, through the conversion its type documents; copy-outs exactly for the string
+   from the C parameter of the same name, through the conversion its type documents; the result returned the
+   documented way (as is, cast back from the enumeration, c_str() of the referenced string, through the capsule); copy-outs exactly for the string
    references the callee may change; parameter names pairwise distinct *)
 Theorem C02_every_generated_wrapper_passes :
-  forallb (fun w => negb (covered w) || (wrapper_ok w && nodupb (map fst (w_params w)))) flows = true.
+  forallb (fun w => negb (covered w) || (wrapper_ok w && result_ok w && nodupb (map fst (w_params w)))) flows = true.
 Proof. vm_compute. reflexivity. Qed.
 Print Assumptions C02_every_generated_wrapper_passes.
 
